@@ -21,6 +21,9 @@ def declare(c):
     c.rule('C01.R4', 'the region test consults every defined region', floor=1)
     c.rule('C01.R5', 'an episode is opened only when some point tested inside a region', floor=20)
     c.rule('C01.R7', 'forwarded output is built per command: configured script lists are copied, never extended or returned', floor=200)
+    c.rule('C01.R8', 'the point handed to the region test is the native destination itself (logical*unit+offsets, or '
+                     'current+logical*unit in relative mode) - not a rounded, clamped or otherwise adjusted value - and the '
+                     'tracked position afterwards is that point', floor=8)
     c.rule('C01.R6', 'tracked X/Y/Z follow the last point of every move whatever the region tests said', floor=200)
 
 
@@ -142,7 +145,7 @@ def path_rules(col, gcode, paths, I):
                 col.report('C01.R5', 'ExcludeRegionState.enterExcludedRegion', '%s enters without excluded point' % gcode,
                            'an episode is opened although no point of the move tested inside a region', detail=detail)
         # ---- R6
-        if called_plm:
+        if called_plm or gcode in ('G0', 'G1'):
             col.instance('C01.R6', sig)
             for axis, letter in (('X_AXIS', 'X'), ('Y_AXIS', 'Y'), ('Z_AXIS', 'Z')):
                 aoid = '%s.position.%s' % (S_OID, axis)
@@ -245,6 +248,9 @@ def run(ctx, tier):
     run_path_rules(ctx, __name__, 'path_rules', list(MOTION) + ['G10', 'G11'], unroll=2 if tier == 'thorough' else 1,
                    debug_logging=(tier == 'thorough'))
     coverage_rules(ctx, tier)
+    from .entries import make_interp
+    from .rules_c08 import native_args_rule
+    native_args_rule(ctx, make_interp(ctx.model), 'C01.R8', 'C01.R8')
     ctx.assume('region geometry and unit conversion are decided by C17 / C08; here the outcome of containsPoint is a '
                'free boolean per (region, point)')
     ctx.assume('non-motion codes that physically move the tool (G28 inside an episode) are outside this check')
